@@ -194,7 +194,7 @@ func allEffects() core.OpFilter {
 func guardRow(r *core.Run, rule string, h *core.Handler, what string, filter core.OpFilter, mk func(unit *ssa.Function) core.GuardMatch, guardText string) bool {
 	p := r.Prog
 	st := &core.ChainStats{}
-	fails := p.CheckGuarded(h.Fn, filter, mk, true, st)
+	fails := p.CheckGuarded(h.Fn, filter, p.LiftGuard(mk, 2), true, st)
 	construct := h.Key() + ":" + what
 	r.Analysed(core.FnName(h.Fn))
 	r.CallSites(st.Effects)
@@ -243,4 +243,97 @@ func allInstrs(fn *ssa.Function, f func(ssa.Instruction)) {
 			f(in)
 		}
 	}
+}
+
+// directOpCallee returns the callee of call that directly performs an op of the given kind on module/prefix.
+func directOpCallee(p *core.Program, call ssa.CallInstruction, kind, name string) (*ssa.Function, *core.StoreOp) {
+	for _, cal := range p.Callees(call) {
+		for _, o := range p.StoreOps(cal) {
+			if o.Kind == kind && o.Module+"/"+o.Prefix == name {
+				return cal, o
+			}
+		}
+	}
+	return nil, nil
+}
+
+// keyTermsAtCall resolves the components of the store key used by op (performed directly in callee) into
+// canonical terms of the caller at the given call site. A component that is not a plain function of one
+// callee parameter (or a field of a record parameter) yields a "?"-term.
+func keyTermsAtCall(p *core.Program, call ssa.CallInstruction, callee *ssa.Function, op *core.StoreOp) []string {
+	c := call.Common()
+	var actuals []ssa.Value
+	if c.IsInvoke() {
+		actuals = append(actuals, c.Value)
+	}
+	actuals = append(actuals, c.Args...)
+	tb := core.NewTermBuilder(p)
+	var out []string
+	comps := p.KeyComponents(op.Key, op.Instr)
+	if len(comps) == 1 {
+		// an opaque key builder (append-style helper): use the helper call's arguments as the components
+		v := op.Key
+		for i := 0; i < 4; i++ {
+			if cv, ok := v.(*ssa.Convert); ok {
+				v = cv.X
+				continue
+			}
+			break
+		}
+		if kc, ok := v.(*ssa.Call); ok && len(p.Callees(kc)) == 1 && len(kc.Call.Args) > 0 {
+			comps = nil
+			for _, a := range kc.Call.Args {
+				comps = append(comps, core.KeyComponent{Verb: "arg", Val: a, At: kc})
+			}
+		}
+	}
+	for _, comp := range comps {
+		atoms := p.ResolveToEntry(p.ProvAt(comp.Val, "", comp.At), callee).DataAtoms()
+		if len(atoms) != 1 || atoms[0].Kind != "param" || atoms[0].Fn != callee || atoms[0].Idx >= len(actuals) {
+			out = append(out, "?"+p.ProvAt(comp.Val, "", comp.At).String())
+			continue
+		}
+		arg := actuals[atoms[0].Idx]
+		path := atoms[0].Path
+		if path == "" {
+			out = append(out, tb.Term(arg))
+			continue
+		}
+		field := strings.TrimPrefix(path, ".")
+		if al := recordAlloc(arg); al != nil {
+			if sts := fieldStores(al, field); len(sts) > 0 {
+				out = append(out, tb.Term(sts[len(sts)-1].Val))
+				continue
+			}
+			// an unmodified key field of a record loaded from the same prefix equals the key it was loaded by
+			// (store invariant: records are keyed by their own key fields, position by position)
+			resolved := false
+			for _, ref := range *al.Referrers() {
+				st, ok := ref.(*ssa.Store)
+				if !ok || st.Addr != al {
+					continue
+				}
+				ex, ok := st.Val.(*ssa.Extract)
+				if !ok || ex.Index != 0 {
+					continue
+				}
+				gc, ok := ex.Tuple.(*ssa.Call)
+				if !ok {
+					continue
+				}
+				if gcal, gop := directOpCallee(p, gc, "Get", op.Module+"/"+op.Prefix); gcal != nil && gcal != callee {
+					gt := keyTermsAtCall(p, gc, gcal, gop)
+					if len(out) < len(gt) {
+						out = append(out, gt[len(out)])
+						resolved = true
+					}
+				}
+			}
+			if resolved {
+				continue
+			}
+		}
+		out = append(out, tb.Term(arg)+path)
+	}
+	return out
 }
